@@ -3,7 +3,9 @@
    unreachable) with a fuel-based big-step semantics and explicit traps, plus the pseudo-instruction
    `Charge c` that stands for the two instructions the gas instrumentation inserts
    (`i64.const c; call $gas`): it subtracts c from the remaining budget and traps with OutOfGas when
-   the budget is insufficient; it touches nothing else.
+   the budget is insufficient; it touches nothing else.  `Tick c` is a ghost instruction used only to
+   state cost theorems: it adds c to the ghost counter `spent` (placing `Tick (cost i)` in front of every
+   instruction i makes `spent` the sum of the costs of the executed instructions).
    Blocks have type [] -> []: leaving a block by a branch restores the operand stack of its entry
    (what the WebAssembly validator guarantees for such blocks).  Values are integers mod 2^64;
    conditions are "non-zero".  Executable definitions only. *)
@@ -33,7 +35,8 @@ Inductive instr :=
 | Br (n : nat) | BrIf (n : nat)
 | Return
 | Call (f : nat)
-| Charge (c : Z).
+| Charge (c : Z)
+| Tick (c : Z).                  (* ghost: records that an instruction of cost c is executed *)
 
 Record func := mkFunc { f_params : nat; f_locals : nat; f_result : bool; f_body : list instr }.
 Definition prog := list func.
@@ -41,16 +44,17 @@ Definition prog := list func.
 Record state := mkSt {
   stack : list Z; locals : list Z; globals : list Z; mem : list Z;
   gas : Z;          (* remaining budget *)
-  charged : Z       (* total charged so far *)
+  charged : Z;      (* total charged so far *)
+  spent : Z         (* ghost: sum of the Tick amounts executed so far *)
 }.
 Definition set_stack (s : state) (k : list Z) : state :=
-  mkSt k (locals s) (globals s) (mem s) (gas s) (charged s).
+  mkSt k (locals s) (globals s) (mem s) (gas s) (charged s) (spent s).
 Definition set_locals (s : state) (l : list Z) : state :=
-  mkSt (stack s) l (globals s) (mem s) (gas s) (charged s).
+  mkSt (stack s) l (globals s) (mem s) (gas s) (charged s) (spent s).
 Definition set_globals (s : state) (g : list Z) : state :=
-  mkSt (stack s) (locals s) g (mem s) (gas s) (charged s).
+  mkSt (stack s) (locals s) g (mem s) (gas s) (charged s) (spent s).
 Definition set_mem (s : state) (m : list Z) : state :=
-  mkSt (stack s) (locals s) (globals s) m (gas s) (charged s).
+  mkSt (stack s) (locals s) (globals s) m (gas s) (charged s) (spent s).
 
 Inductive outcome :=
 | Normal (s : state)
@@ -127,7 +131,8 @@ Definition step_simple (i : instr) (s : state) : option outcome :=
                                         | None => Trap end
                        | _ => Trap end)
   | Charge c => Some (if gas s <? c then OutOfGas
-                      else Normal (mkSt (stack s) (locals s) (globals s) (mem s) (gas s - c) (charged s + c)))
+                      else Normal (mkSt (stack s) (locals s) (globals s) (mem s) (gas s - c) (charged s + c) (spent s)))
+  | Tick c => Some (Normal (mkSt (stack s) (locals s) (globals s) (mem s) (gas s) (charged s) (spent s + c)))
   | _ => None
   end.
 
@@ -190,14 +195,14 @@ Fixpoint exec (fuel : nat) (p : prog) (s : state) (is : list instr) {struct fuel
                 match take_args (f_params fn) (stack s) [] with
                 | None => Trap
                 | Some (args, k) =>
-                    let callee := mkSt [] (args ++ repeat 0 (f_locals fn)) (globals s) (mem s) (gas s) (charged s) in
+                    let callee := mkSt [] (args ++ repeat 0 (f_locals fn)) (globals s) (mem s) (gas s) (charged s) (spent s) in
                     let finish (s' : state) :=
                       if f_result fn then
                         match stack s' with
-                        | v :: _ => Some (mkSt (v :: k) (locals s) (globals s') (mem s') (gas s') (charged s'))
+                        | v :: _ => Some (mkSt (v :: k) (locals s) (globals s') (mem s') (gas s') (charged s') (spent s'))
                         | [] => None
                         end
-                      else Some (mkSt k (locals s) (globals s') (mem s') (gas s') (charged s')) in
+                      else Some (mkSt k (locals s) (globals s') (mem s') (gas s') (charged s') (spent s')) in
                     match exec f p callee (f_body fn) with
                     | Normal s' | Ret s' | Branch _ s' =>
                         match finish s' with Some s'' => exec f p s'' rest | None => Trap end
@@ -217,6 +222,7 @@ Fixpoint exec (fuel : nat) (p : prog) (s : state) (is : list instr) {struct fuel
 Fixpoint erase_i (i : instr) : list instr :=
   match i with
   | Charge _ => []
+  | Tick _ => []
   | Block b => [Block (flat_map erase_i b)]
   | Loop b => [Loop (flat_map erase_i b)]
   | If t e => [If (flat_map erase_i t) (flat_map erase_i e)]
